@@ -29,6 +29,10 @@ func init() {
 				tags, nt := histTags(h)
 				emit(Case{Op: h.String(), Tags: tags, NonTrivial: nt})
 			}
+			// number of tracks around 2^8 (the header's track count is two bytes)
+			for _, nt := range []int{255, 256, 257, 300, 1000} {
+				emit(Case{Op: fmt.Sprintf("c03.manytracks n=%d", nt), Tags: []string{"tracks>=256"}, NonTrivial: true})
+			}
 			// tracks whose chunk body crosses 2^16 bytes (thorough: also a multiple of it and 2^17)
 			bodies := []int{65530, 70000}
 			if tier == "thorough" {
@@ -141,6 +145,29 @@ func runC03(c Case, m *Model) (v Verdict) {
 			if sa := m.Ask("strict.vlq " + hx(enc)); sa != fmt.Sprintf("ok %d 0", n) {
 				v.Oracle = append(v.Oracle, fmt.Sprintf("strict VLQ parser on VlqEncode(%d) = % X: %s", n, enc, sa))
 			}
+		}
+		return
+	}
+	if strings.HasPrefix(c.Op, "c03.manytracks") {
+		var n int
+		fmt.Sscanf(fields(c.Op)["n"], "%d", &n)
+		s := smf.NewSMF1()
+		s.TimeFormat = smf.MetricTicks(96)
+		for i := 0; i < n; i++ {
+			var t smf.Track
+			if i%50 == 0 {
+				t.Add(uint32(i), []byte{0x90, byte(i % 128), 1})
+			}
+			t.Close(0)
+			s.Add(t)
+		}
+		var w bytes.Buffer
+		if _, err := s.WriteTo(&w); err != nil {
+			v.Oracle = append(v.Oracle, "writing "+c.Op+": "+err.Error())
+			return
+		}
+		if sp := fields(m.Ask("strict.parse " + hx(w.Bytes())))["s"]; sp != "ok:"+showSMF(s) {
+			v.Oracle = append(v.Oracle, fmt.Sprintf("a file with %d tracks: strict parser says %s", n, short(sp)))
 		}
 		return
 	}
